@@ -5,6 +5,7 @@ import AkVerif.Lemmas.LLC03
 import AkVerif.Lemmas.LLFuel
 import AkVerif.Lemmas.LLLeast
 import AkVerif.Lemmas.LLLl1Final
+import AkVerif.Lemmas.LLTmpl
 /-!
 # C02 — conflict-free (LL(1)) grammars are parsed exactly
 
@@ -101,6 +102,19 @@ theorem reject_raises (inp : CtorIn) (P : Parser) (hP : construct inp = .ok P)
   have hB := construct_built hP
   obtain ⟨hD, hnd⟩ := factRelD_of_built hB
   exact reject_of_built hB hD hnd (start_user_of_built hB hstart) raw hEnd hnot
+
+/-- **Exactness and rejection for dictionaries with templates** (generated productions as data `T`,
+`PlainNames` as in `C01.parse_valid_templates`): the list / map / sequence shapes are right-recursive
+LL(1) grammars, parsed exactly and rejected with `ParsingError`, whatever the length of the input. -/
+theorem exact_templates (T : Tmpl) (inp : CtorIn) (P : Parser) (hP : constructG T inp = .ok P)
+    (hpl : PlainNames inp.prods) (hstart : inp.start ∈ inp.prods.map (·.1))
+    (hamb : isAmbiguous P.table = false) (raw : List (List Char × List Char))
+    (hEnd : ∀ tok ∈ (P.tokens raw).dropLast, tok.name ≠ endSym) :
+    ((∃ fuel t, P.parse raw fuel = .ok t) ↔
+      InLang P.terminals P.userProds P.start (P.tokens raw).dropLast) ∧
+    (¬ InLang P.terminals P.userProds P.start (P.tokens raw).dropLast →
+      ∃ k, ∀ fuel, k ≤ fuel → P.parse raw fuel = .error .parsingError) :=
+  ⟨exact_G hP hpl hstart hamb raw hEnd, reject_G hP hpl hstart raw hEnd⟩
 
 /-- **Identically for both `smart_factorization` settings**: two parsers built from the same
 arguments except `smart_factorization`, both reporting no ambiguity, accept the same texts. -/
